@@ -195,3 +195,55 @@ def enum_unit(kf):
 
 UNITS['c07_parse_enum'] = (['C07'], enum_unit)
 SEARCH['c07_parse_enum'] = ['c07_enum']
+
+
+# ----------------------------------------------------------------------------------------------------------------------
+# NonZero integer scalars: the integer's range minus zero; the `NonZero::new(..).unwrap()` can never panic
+NZ = 'src/types/external/non_zero_integers.rs'
+NZT = {'i8': 'NonZeroI8', 'i16': 'NonZeroI16', 'i32': 'NonZeroI32', 'i64': 'NonZeroI64', 'isize': 'NonZeroIsize',
+       'u8': 'NonZeroU8', 'u16': 'NonZeroU16', 'u32': 'NonZeroU32', 'u64': 'NonZeroU64', 'usize': 'NonZeroUsize'}
+
+
+def nonzero_unit(kf):
+    u = Unit('c07_nonzero_integers', ['C07'], 'NonZero integer scalars: parse accepts exactly the non-zero integers of the type; to_value/parse round-trip; no reachable unwrap failure')
+    u.kf = kf
+    value_types(u)
+    u.prelude('int_specs')
+    u.spec(SPEC, 'integer scalar domain')
+    shim = ['// std::num::NonZero*: an integer that is not zero (type invariant); new() is Some exactly for non-zero arguments (std, assumed)']
+    for T, N in NZT.items():
+        shim.append(f'''pub struct {N} {{ v: {T} }}
+impl {N} {{
+    #[verifier::type_invariant] closed spec fn inv(&self) -> bool {{ self.v != 0 }}
+    pub closed spec fn val(&self) -> {T} {{ self.v }}
+    pub fn new(n: {T}) -> (r: Option<{N}>) ensures (n == 0 ==> r is None), (n != 0 ==> r is Some && r->Some_0.val() == n) {{ if n == 0 {{ None }} else {{ Some({N} {{ v: n }}) }} }}
+    pub fn get(&self) -> (r: {T}) ensures r == self.val(), r != 0 {{ proof {{ use_type_invariant(self); }} self.v }}
+}}''')
+    u.trusted('\n'.join(shim), 'NonZero* shims')
+    for T, N in NZT.items():
+        lo, hi = f'{T}::MIN as int', f'{T}::MAX as int'
+        u.extract_fn(NZ, [f'impl ScalarType for {N}', 'fn parse'], name=f'{N}_parse', label=f'{NZ}::impl ScalarType for {N}::fn parse',
+                     sig_rewrites=[ReSub(r'InputValueResult<Self>', f'InputValueResult<{N}>')],
+                     rewrites=[Sub('Self', N, count='*', rule='R-self'), MacroCall('format', 'verif_msg()')] + COMMON,
+                     head_proof='proof { broadcast use axiom_number_range; }',
+                     ensures=[f'''match r {{ Ok(x) => int_domain(value, {lo}, {hi}) == Some(x.val() as int) && x.val() != 0,
+            Err(_) => int_domain(value, {lo}, {hi}) is None || int_domain(value, {lo}, {hi}) == Some(0int) }}   // the type's range without zero, nothing else'''])
+        u.extract_fn(NZ, [f'impl ScalarType for {N}', 'fn to_value'], name=f'{N}_to_value', label=f'{NZ}::impl ScalarType for {N}::fn to_value',
+                     sig_rewrites=[ReSub(r'&self', f'this: &{N}')],
+                     rewrites=[Sub('self.get()', 'this.get()', count='+', rule='R-self'),
+                               Sub('Number::from(', 'Number::from_i64(' if T in SIGNED else 'Number::from_u64(', rule='R-from')],
+                     ensures=[f'int_domain(r, {lo}, {hi}) == Some(this.val() as int)'])
+        u.spec(f'''
+fn {N}_roundtrip(x: {N}) {{
+    proof {{ use_type_invariant(&x); }}
+    let v = {N}_to_value(&x);
+    let r = {N}_parse(v);
+    assert(r is Ok && r->Ok_0.val() == x.val());
+}}''', f'{N} round-trip lemma')
+    u.assume('std::num::NonZero* represented by an integer with the non-zero type invariant (R-ty); `new` is Some exactly for non-zero arguments (std, assumed)')
+    u.search_case('non_zero_integers.rs', 'c07_int')
+    return u
+
+
+UNITS['c07_nonzero_integers'] = (['C07'], nonzero_unit)
+SEARCH['c07_nonzero_integers'] = ['c07_int']
